@@ -122,7 +122,7 @@ CORE = [
 FULL = UNARY + BINARY
 
 KIND_PROP = {
-    'iter': 'C01', 'iter-again': 'C01', 'iter-after-aborted-iteration': 'C01', 'iter-two-iterators-in-flight': 'C01', 'copy': 'C01', 'copy-freeze': 'C01', 'parent-changed': 'C01',
+    'iter': 'C01', 'iter-again': 'C01', 'iter-cold': 'C01', 'iter-after-aborted-iteration': 'C01', 'iter-two-iterators-in-flight': 'C01', 'copy': 'C01', 'copy-freeze': 'C01', 'parent-changed': 'C01',
     'build-refused': 'C01',
     'len': 'C02', 'indexable-lost': 'C02', 'iter-after-index': 'C02', 'index': 'C02', 'index-negative': 'C02',
     'index-out-of-range-returns': 'C02', 'index-out-of-range-wrong-error': 'C02', 'index-error-lost': 'C02',
@@ -216,11 +216,41 @@ class Explorer:
                 if out:
                     ok2, _ = self.judge(out, cref, cprog, taint, ctags)
                     ok = ok and ok2
+            if 'iter' in self.what and ref.finite and cref.finite and ok:
+                # the same step on a cold lineage: parent and child are built afresh, the child is the FIRST thing
+                # that is iterated, then the parent (state that a stage fills lazily must not depend on who reads first)
+                out = []
+                try:
+                    with O.deadline(10):
+                        cold = build_program(program)
+                        cold_child = B.apply(cold, ref, op)
+                except BaseException as e:      # noqa: BLE001
+                    out.append(('build-refused', f'building the same program a second time raised {O.exc_name(e)}'))
+                else:
+                    cvals, cexc = O.expected_stream(cref.values())
+                    if O.cmp_stream('iter-cold', O.run_iter(lambda: iter(cold_child), cref.n() + 3), cvals, cexc, out):
+                        vals, exc = O.expected_stream(ref.values())
+                        O.cmp_stream('parent-changed', O.run_iter(lambda: iter(cold), ref.n() + 3), vals, exc, out)
+                    del cold, cold_child
+                if out:
+                    # judged with the taint of the child state: a known finding reported for this very program covers
+                    # its cold twin as well
+                    ok2, _ = self.judge(out, cref, cprog, ctaint, ctags)
+                    ok = ok and ok2
             if len(self.samples) < 3 and depth == self.depth:
                 self.samples.append({'program': cprog, 'reference': [O.canon(v) for v in cref.values()],
                                      'keys': cref.keys() if cref.keyed else None})
             if ok and depth < self.depth:
                 self.dfs(cds, cref, cprog, depth + 1, ctaint, tags=ctags)
+
+
+def build_program(program):
+    """A fresh, never observed build of `program`."""
+    ref = R.source(program['source'])
+    ds = B.source(program['source'])
+    for op in program['ops']:
+        ds, ref = B.apply(ds, ref, op), R.apply(ref, op)
+    return ds
 
 
 def structural_tags(ref, op):
